@@ -556,8 +556,12 @@ class Bus(object):
         """Stop all services."""
         self.state = states.STOPPING
         self.log('Bus STOPPING')
-        self.publish('stop')
-        self.state = states.STOPPED
+        try:
+            self.publish('stop')
+        finally:
+            # Every stop listener has been called, even if some of them
+            # failed: do not leave the bus in the STOPPING state forever.
+            self.state = states.STOPPED
         self.log('Bus STOPPED')
 
     def start_with_callback(self, func, args=None, kwargs=None):
